@@ -177,6 +177,21 @@ def _judge_once(module, cfg_text, traces, workers, timeout, env, heap, tag, stat
     return acc, rej
 
 
+def check_canary_pairs(acc, start, npairs, what):
+    """Canaries come in pairs appended after the real traces: the record as the implementation produced it (control) and
+    the same record with one field corrupted.  The corrupted one must be rejected whenever the control is accepted (if
+    the control itself is rejected - the tree under test is wrong there - the pair says nothing).  Returns the number of
+    pairs that demonstrated the binding."""
+    shown = 0
+    for k in range(npairs):
+        ctrl, bad = start + 2 * k, start + 2 * k + 1
+        if ctrl in acc:
+            if bad in acc:
+                raise TLCFailure("canary (%s) accepted by the judge" % what)
+            shown += 1
+    return shown
+
+
 def simulate(module, cfg_text, num, depth, seed, env=None, timeout=1800, workers=1, tag=None, extra=None):
     """Run TLC in simulation mode; the module's invariant prints behaviours.  Returns TLC's stdout."""
     tag = tag or module
